@@ -48,3 +48,20 @@ impl<T, E> UnwrapOrRefuse<T> for ::std::result::Result<T, E> {
     #[verifier::external_body]
     fn unwrap_or_refuse(self) -> (r: T) ensures self is Ok, r == self->Ok_0 { unimplemented!() }
 }
+// env mirrors for the slice configure#handover (the tail expression of Builder::configure that builds the
+// ConfiguredPlugin): the REAL field names; `option_values` with its real type, every other field with a
+// type parameter (the slice only moves them), so each field can only be filled from a value of its own kind
+impl<K, V> HashMap<K, V> {
+    #[verifier::external_body]
+    pub fn new() -> (r: Self) { unimplemented!() }
+}
+pub struct BuilderHandover<SC, NT, OPTS> {
+    pub setconfig_callback: SC, pub notifications: NT, pub options: OPTS,
+    pub option_values: HashMap<String, Option<options::Value>>,
+}
+pub struct ConfiguredPlugin<ID, IN, OUT, RM, SC, NT, SUBS, WS, OPTS, CFG> {
+    pub init_id: ID, pub input: IN, pub output: OUT, pub rpcmethods: RM, pub setconfig_callback: SC,
+    pub notifications: NT, pub subscriptions: SUBS, pub wildcard_subscription: WS, pub options: OPTS,
+    pub option_values: HashMap<String, Option<options::Value>>, pub configuration: CFG,
+    pub hooks: HashMap<String, u8>,
+}
